@@ -669,3 +669,10 @@ impl AssemblyWindow {
         self.alloc
     }
 }
+
+#[cfg(uflow_verif)]
+impl AssemblyWindow {
+    pub fn verif_max_alloc(&self) -> usize {
+        self.max_alloc
+    }
+}
